@@ -158,7 +158,7 @@ func (rn *runner) build(ctx []*q1q.Shard, viaDir bool) *realCorpus {
 			}
 			m[p] = s
 		}
-		ss := search.VerifShardedSearcher(m)
+		ss := search.VerifShardedSearcherC18(m)
 		rc.sharded = ss
 		rc.closeFn = ss.Close
 	}
@@ -545,7 +545,7 @@ func (rn *runner) agg(d detail) {
 		ins = append(ins, encEntries(es))
 	}
 	in := strings.TrimSpace("agg " + strings.Join(ins, " "))
-	ss := search.VerifShardedSearcher(m)
+	ss := search.VerifShardedSearcherC18(m)
 	defer ss.Close()
 	rl, err := ss.List(context.Background(), &query.Const{Value: true}, nil)
 	var impl string
